@@ -49,6 +49,16 @@ type Contract struct {
 	File     string
 	Line     int
 	Options  map[string]string
+	GhostSets []*GhostSet
+}
+
+// GhostSet: "ghostset name(obj) = value [when cond]" -- a ghost field update the function performs on return.
+type GhostSet struct {
+	Field          string
+	Obj, Val, Cond ast.Expr
+	Text           string
+	File           string
+	Line           int
 }
 
 type Spec struct {
@@ -85,6 +95,7 @@ type ContractSet struct {
 	Funcs   map[string]*Contract
 	UFuns   map[string]*Spec // uninterpreted functions (no body)
 	Config  map[string][]string
+	GhostFields map[string]string // ghost field name -> Go type of its value ("Int", "bool", ...)
 	Axioms  []*Clause // assumed everywhere (each names the ground obligation or audit that justifies it)
 	Specs   map[string]*Spec
 	Lemmas  []*Lemma
@@ -439,6 +450,42 @@ func (cs *ContractSet) loadFile(path string, goFile bool, pkgName string, assume
 			default:
 				return fmt.Errorf("%s:%d: unknown loop clause %q", path, l.line, sub)
 			}
+		case "ghostfield":
+			fs := strings.Fields(rest)
+			if len(fs) != 2 {
+				return fmt.Errorf("%s:%d: ghostfield <name> <type>", path, l.line)
+			}
+			cs.GhostFields[fs[0]] = fs[1]
+		case "ghostset":
+			if cur == nil {
+				return fmt.Errorf("%s:%d: ghostset outside func block", path, l.line)
+			}
+			// name(obj) = value [when cond]
+			body, cond := rest, "true"
+			if i := strings.Index(rest, " when "); i >= 0 {
+				body, cond = rest[:i], rest[i+6:]
+			}
+			eq := strings.Index(body, "=")
+			if eq < 0 {
+				return fmt.Errorf("%s:%d: ghostset needs '='", path, l.line)
+			}
+			lhs, rhs := strings.TrimSpace(body[:eq]), strings.TrimSpace(body[eq+1:])
+			op := strings.Index(lhs, "(")
+			if op < 0 || !strings.HasSuffix(lhs, ")") {
+				return fmt.Errorf("%s:%d: ghostset lhs must be name(obj)", path, l.line)
+			}
+			g := &GhostSet{Field: lhs[:op], Text: rest, File: path, Line: l.line}
+			var err error
+			if g.Obj, err = parseClauseExpr(lhs[op+1 : len(lhs)-1]); err != nil {
+				return fmt.Errorf("%s:%d: %v", path, l.line, err)
+			}
+			if g.Val, err = parseClauseExpr(rhs); err != nil {
+				return fmt.Errorf("%s:%d: %v", path, l.line, err)
+			}
+			if g.Cond, err = parseClauseExpr(cond); err != nil {
+				return fmt.Errorf("%s:%d: %v", path, l.line, err)
+			}
+			cur.GhostSets = append(cur.GhostSets, g)
 		case "trusted":
 			if cur == nil {
 				return fmt.Errorf("%s:%d: trusted outside func block", path, l.line)
@@ -528,7 +575,7 @@ func matchParen(s string, i int) int {
 }
 
 func loadContracts(repo, verifDir string) (*ContractSet, error) {
-	cs := &ContractSet{Funcs: map[string]*Contract{}, Specs: map[string]*Spec{}, UFuns: map[string]*Spec{}, Config: map[string][]string{}}
+	cs := &ContractSet{Funcs: map[string]*Contract{}, Specs: map[string]*Spec{}, UFuns: map[string]*Spec{}, Config: map[string][]string{}, GhostFields: map[string]string{}}
 	// specs + assumed first
 	for _, sub := range []string{"spec", "assumed"} {
 		files, _ := filepath.Glob(filepath.Join(verifDir, sub, "*.spec"))
